@@ -18,7 +18,7 @@
    the CURRENT coordinates with an analytic potential.
 
    Source anchors are quoted as species.py:LINE for /repo/autode/species/species.py (tree after
-   commit 2fc12a5 "gradient and Hessian stay consistent with the atoms they belong to"). *)
+   commits 2fc12a5, ab13883, 4492722). *)
 From Coq Require Import List Bool Arith ZArith Lia.
 Import ListNotations.
 
@@ -42,10 +42,10 @@ Definition inv_lookup (m : list (nat * nat)) (v : nat) : nat :=
   match find (fun p => snd p =? v) m with Some p => fst p | None => v end.
 Definition subsetb (a b : list nat) : bool := forallb (fun x => existsb (Nat.eqb x) b) a.
 Definition set_eqb (a b : list nat) : bool := subsetb a b && subsetb b a.
-(* species.py:997-1002  set(keys) == set(values) == set(range(n_atoms)) *)
+(* species.py:996-1001  set(keys) == set(values) == set(range(n_atoms)) *)
 Definition mapping_ok (n : nat) (m : list (nat * nat)) : bool :=
   set_eqb (map fst m) (seq 0 n) && set_eqb (map snd m) (seq 0 n).
-(* species.py:1004-1005  order = sorted(mapping, key=mapping[k]); new[p] = old[order[p]],
+(* species.py:1003-1004, 1028-1031  order = sorted(mapping, key=mapping[k]); new[p] = old[order[p]],
    i.e. new[p] = old[k] for the key k with m[k] = p *)
 Definition permute {A} (d : A) (m : list (nat * nat)) (l : list A) : list A :=
   map (fun p => nth (inv_lookup m p) l d) (seq 0 (length l)).
@@ -109,16 +109,16 @@ Definition set_atoms (ls : list nat) (big pure : bool) (s : sp) : sp * out :=
   if nl_eqb ls (labels s) then set_coords (length ls) big pure s
   else (mkSp ls (seq 0 (length ls)) (S (geom s)) (frame s) [] None None None (graph s) (mult s), OOk).
 
-(* ---------- translate / centre, species.py:1066-1078, 1138-1142 ----------
-   every Atom is moved in place; nothing else is touched.  The Hessian object's `.atoms` aliases the
+(* ---------- translate / centre, species.py:1071-1086, 1150-1154 ----------
+   every Atom is moved in place (by a private copy of the vector); nothing else is touched.  The Hessian object's `.atoms` aliases the
    same Atom objects, so its (translation-invariant) projector and modes stay valid. *)
 Definition translate (s : sp) : sp * out := (s, OOk).
 Definition centre (s : sp) : sp * out := translate s.
 
-(* ---------- rotate, species.py:1080-1129 ----------
-   coordinates and `_grad[:]` are transformed with the SAME rotation matrix (:1113-1115) and a NEW
-   Hessian object holding the rotated matrix replaces the old one (:1117-1127): the tags move together
-   with the frame and nothing memoised survives. *)
+(* ---------- rotate, species.py:1088-1141 ----------
+   coordinates, gradient (a NEW float Gradient, :1123-1127) and Hessian (a NEW Hessian object, :1129-1139)
+   are transformed with the SAME rotation matrix: the tags move together with the frame and nothing
+   memoised survives. *)
 Definition retag (t : tag) : tag := mkTag (tgeom t) (S (tframe t)) (torder t).
 Definition rotate (s : sp) : sp * out :=
   (mkSp (labels s) (order s) (geom s) (S (frame s)) (en s)
@@ -175,9 +175,10 @@ Definition copy (s : sp) : sp :=
 Definition new_species (s : sp) : sp :=
   mkSp (labels s) (order s) (geom s) (frame s) [] None None None (graph s) (mult s).
 
-(* ---------- reorder_atoms, species.py:974-1027; mol_graphs.py:462-478 ----------
-   atoms (:1004-1005), gradient rows (:1008-1009), Hessian rows and columns (:1011-1018, a NEW Hessian
-   object) and graph nodes (:1023-1025) are all permuted by the same mapping. *)
+(* ---------- reorder_atoms, species.py:973-1031; mol_graphs.py:462-478 ----------
+   atoms (:1004, 1028-1031), gradient rows (:1007-1008), Hessian rows and columns (:1010-1017, a NEW Hessian
+   object) and the nodes of an existing graph (:1019-1025; a graph that was never built is not built here)
+   are all permuted by the same mapping. *)
 Definition retag_order (m : list (nat * nat)) (t : tag) : tag :=
   mkTag (tgeom t) (tframe t) (permute 0 m (torder t)).
 Definition reorder (m : list (nat * nat)) (s : sp) : sp * out :=
@@ -205,7 +206,7 @@ Definition do_query (q : query) (s : sp) : sp * out :=
   | _ => (s, OOk)
   end.
 
-(* ---------- calc_thermo with an existing Hessian, species.py:1300-1384 -> igm.py calculate_thermo_cont:
+(* ---------- calc_thermo with an existing Hessian, species.py:1312-1396 -> igm.py calculate_thermo_cont:
    reads frequencies (memoised) and sn (a translation) and appends H and G contributions to
    self.energies.  Without a Hessian a calculation would be run: not modelled (OtherErr). *)
 Definition thermo (s : sp) : sp * out :=
